@@ -246,7 +246,7 @@ func c20Parked(site string) (total int, sending int) {
 	n := runtime.Stack(buf, true)
 	marker := "/strategies/" + site + ".(*Service)."
 	for _, g := range strings.Split(string(buf[:n]), "\n\n") {
-		if !strings.Contains(g, marker) || !strings.Contains(g, ".func1") {
+		if !strings.Contains(g, marker) || !strings.Contains(g, ".func") {
 			continue
 		}
 		total++
